@@ -80,6 +80,47 @@ def tracegen_stage(tier_, key):
                     seen_dir[k] = seen_dir.get(k, 0) + 1
                     dj = dict(j); dj["id"] = 1000000 + len(directed); dj["force"] = [[body_ix, op]]
                     directed.append(dj)
+        # effect drift: the implementation changed its simulated state differently from the model.
+        # Explore forward from (up to 3 of) those points: force typed / constructor opcodes for the next
+        # three body steps, level by level (a forced opcode only takes effect when the implementation
+        # enables it - read back from the trace), and validate every explored generation.
+        TYPED = [0x61, 0x65, 0x73, 0x75, 0x90, 0x64, 0x93, 0x52, 0x81, 0x92, 0x62, 0x6f, 0x32, 0x30]
+        CONS = [0x28, 0x4e, 0x29, 0x7d, 0x63, 0x5d, 0x8f, 0x74, 0x6c]
+        INTFAM = {0x49, 0x4a, 0x4b, 0x4d, 0x4c, 0x8a, 0x8b}
+        eff = [m for m in findings if m[0] == "D" and m[3] == "effect"]
+        seen_eff, explored = set(), []
+        for m in eff:
+            rid, evix = m[1], m[2]
+            j = byid[rid]
+            k = (j["cfg"]["P"], json.dumps(j["cfg"]["muts"]))
+            if k in seen_eff or len(seen_eff) >= 3: continue
+            seen_eff.add(k)
+            if not lineof:
+                for l in lines: lineof[json.loads(l)["id"]] = l
+            ev = json.loads(lineof[rid])["ev"]
+            b0 = sum(1 for e in ev[:evix] if e["ph"] == 5)       # body steps up to and including the drifting one
+            frontier = [[]]
+            for level in range(3):
+                batch = []
+                for path in frontier:
+                    for op in TYPED + CONS:
+                        dj = dict(j); dj["id"] = 2000000 + len(explored) + len(batch)
+                        dj["force"] = [[b0 + i, o] for i, o in enumerate(path + [op])]
+                        batch.append(dj)
+                if not batch or len(explored) + len(batch) > 2500: break
+                jf = os.path.join(d, "explore_jobs.json"); json.dump(batch, open(jf, "w"))
+                of = os.path.join(d, "explore_traces.ndjson")
+                run([PFV, "run-jobs", jf, of, str(CORES)], timeout=3600)
+                nxt = []
+                for l, dj in zip([x for x in open(of).read().split("\n") if x], batch):
+                    bodies = [e for e in json.loads(l)["ev"] if e["ph"] == 5]
+                    want = dj["force"][-1]
+                    took = len(bodies) > want[0] and (bodies[want[0]]["op"] == want[1] or (want[1] in INTFAM and bodies[want[0]]["op"] in INTFAM))
+                    if took:
+                        explored.append(dj)
+                        if want[1] in CONS or want[1] in (0x32, 0x30): nxt.append([f[1] for f in dj["force"]])
+                frontier = nxt[:40]
+        directed.extend(explored)
         n_directed = len(directed)
         if directed:
             f2, _, st2 = run_and_validate_traces(directed, d, "tracegen_directed", tmo)
@@ -246,10 +287,28 @@ def edge_configs(tier_):
     def ec(P, depth, ext=False, buf=False, unsafe=False, tag=""):
         return {"cfg": corpus.cfg(P, 0, 0, ext=ext, buf=buf, unsafe=unsafe), "depth": depth, "seeds": seeds,
                 "tag": tag or "P%d%s%s d%d" % (P, "+ext" if ext else "", "+buf" if buf else "", depth)}
+    many = [sub_seed("edges-many", i) % (1 << 32) for i in range(40 if tier_ == "quick" else 120)] + [2 ** 64 - 1, 2 ** 64 - 2, 2 ** 64 - 3]
+    extra = []
+    # memo-size boundary scenarios: one value, then 255 / 256 / 257 / 300 memoisations, then every
+    # enabled opcode with many seeds (GET keys, index mutators at rate 1, BINPUT limit, LONG_BINPUT)
+    B_NONE, B_PUT, B_LONG_BINPUT = 78, 112, 114
+    for P in ([1, 5] if tier_ == "quick" else [0, 1, 2, 3, 4, 5]):
+        for n in (255, 256, 257, 300):
+            for muts, tagm in (([], ""), (["offbyone"], "+offbyone"), (["memoindex"], "+memoindex")):
+                c = corpus.cfg(P, 0, 0, muts=muts, rate=1.0)
+                put = B_PUT if (P == 0 or n % 2 == 0) else B_LONG_BINPUT
+                extra.append({"cfg": c, "depth": 0, "seeds": many, "prefix": [B_NONE] + [put] * n,
+                              "tag": "P%d memo=%d%s" % (P, n, tagm)})
+    # value grid: every value-pushing opcode from the empty stack under each single mutator at rate 1,
+    # many entropy draws, outcomes kept apart by their full bytes
+    for P in range(6):
+        for m in corpus.MUTS[:5]:
+            extra.append({"cfg": corpus.cfg(P, 0, 0, muts=[m], rate=1.0, ext=True, buf=True), "depth": 0, "seeds": many,
+                          "full_bytes": True, "tag": "P%d values %s" % (P, m)})
     if tier_ == "quick":
-        return [ec(5, 3, True, True), ec(5, 2), ec(4, 2, True, False), ec(3, 2), ec(2, 2, True, False), ec(1, 3), ec(0, 3),
+        return extra + [ec(5, 3, True, True), ec(5, 2), ec(4, 2, True, False), ec(3, 2), ec(2, 2, True, False), ec(1, 3), ec(0, 3),
                 ec(5, 2, unsafe=True, tag="P5 unsafe d2")]
-    return [ec(5, 4, True, True), ec(5, 3), ec(4, 3, True, False), ec(4, 3), ec(3, 3, True, False), ec(2, 3, True, False),
+    return extra + [ec(5, 4, True, True), ec(5, 3), ec(4, 3, True, False), ec(4, 3), ec(3, 3, True, False), ec(2, 3, True, False),
             ec(2, 3), ec(1, 4), ec(0, 5), ec(5, 3, unsafe=True, tag="P5 unsafe d3"), ec(1, 3, unsafe=True, tag="P1 unsafe d3")]
 
 def edges_stage(tier_, key):
